@@ -903,6 +903,15 @@ PyObject* py_hitmiss(PyObject* self, PyObject* args) {
         PyErr_SetString(PyExc_RuntimeError,TypeErrorMsg);
         return NULL;
     }
+    if (!numpy::are_arrays(array, Bc, res_a) ||
+        !numpy::same_shape(array, res_a) ||
+        !numpy::equiv_typenums(array, Bc, res_a) ||
+        PyArray_NDIM(array) != PyArray_NDIM(Bc) ||
+        PyArray_NDIM(array) < 1 ||
+        !PyArray_ISCARRAY(res_a)) {
+        PyErr_SetString(PyExc_RuntimeError,TypeErrorMsg);
+        return NULL;
+    }
     holdref r(res_a);
 
 #define HANDLE(type) \
@@ -921,6 +930,7 @@ PyObject* py_majority_filter(PyObject* self, PyObject* args) {
     if (!PyArg_ParseTuple(args, "OLO", &array, &N, &res_a) ||
         !PyArray_Check(array) || !PyArray_Check(res_a) ||
         PyArray_TYPE(array) != NPY_BOOL || PyArray_TYPE(res_a) != NPY_BOOL ||
+        PyArray_NDIM(array) != 2 || !numpy::same_shape(array, res_a) ||
         !PyArray_ISCARRAY(res_a)) {
         PyErr_SetString(PyExc_RuntimeError,TypeErrorMsg);
         return NULL;
